@@ -33,6 +33,10 @@ def main(argv):
     except BaseException:            # harness bug or watchdog: inconclusive, never a verdict
         status = 'error'
         err = traceback.format_exc()
+    from . import probes
+    if probes.CALLBACK_ERRORS and status == 'ok':
+        status = 'error'
+        err = 'probe callback raised (harness fault): %r' % (dict(probes.CALLBACK_ERRORS),)
     out = ctx.dump()
     out['status'] = status
     out['error'] = err
